@@ -44,7 +44,7 @@ def gen_plan(seed: int, tier: str) -> dict:
     if r.random() < 0.45:
         return gen_direct(seed, r, tier)
     profile = {
-        "hosts": [["10.0.0.1", "genuine"]], "lat": [0.0005, r.choice([0.0005, 0.01])],
+        "hosts": [["10.0.0.1", "genuine"]], "lat": [0.0005, r.choice([0.0005, 0.01])], "coalesce": r.choice([0, 0, 0.3, 1.0]),
         "seg": r.choice(["whole", "halves", "bytes", "prefix", "random", "random"]),
         "gap": r.choice([0.0, 0.0, 0.01]), "frame": r.choice(["max", "mixed", "mixed", 1, 16, 1023]), "n_chars": 24,
         "slow_drain": r.choice([0.0, 0.0, 0.6]), "slow_drain_max": 40.0,
